@@ -8,6 +8,20 @@ CHECKS = {
    "Every (claim tree, strategy incl. every Custom path subset, type-consistent selection, configuration) of the stated scopes is issued, presented and verified through the real API and compared with the reference view(U,H,D). Quick: S(4,3) complete in the cheapest configuration, S(3,3) with rotating 36 configurations, S(2,2) x 36, alphabet passes, depth chains <= 6. Thorough: S(5,4), S(4,3) rotating, S(3,3) x 36, chains <= 8.",
    "jsonwebtoken/ring/serde_json/base64/sha2 correct; small-scope hypothesis beyond the stated bounds", "4 C01"),
 }
+CHECKS.update({
+ "C05": ("exploration", "E1 pipeline (issuance only)", "exhaustive enumeration of claim trees x every strategy (all path subsets, malformed paths) x configurations; output decoded by an independent codec and compared with the reference hidden-set model",
+   "Every (claim tree, strategy, configuration) of the scopes is issued through the real API; the harness decodes the returned string itself and checks: clear part == view(U,H,{}), all disclosures applied == U with the from-disclosure paths == H, every disclosure referenced exactly once, digests unique, _sd_alg/iss/iat/exp/cnf as stated, bad path refused, dangling path inert. Quick S(4,3) x 8 cfgs + S(3,3) x 36; thorough S(5,4) x 8 + S(4,3) x 36.",
+   "jsonwebtoken/ring/serde_json/base64/sha2 correct; Custom-strategy member names free of '.', '[' and non-empty as the property stipulates", "4 C05"),
+ "C06": ("exploration", "E1 pipeline (holder output)", "exhaustive enumeration of selections per credential; presentation decoded by an independent codec and compared with the reference selected-set model; plus every arbitrary selector JSON up to a node bound for the weak form",
+   "Strong form: same scopes as C01, observed at create_presentation's output (byte-identical JWT, disclosure multiset == expected, KB-JWT iff requested, exact framing). Weak form: every selector JSON with <= 3 (quick) / 4 (thorough) nodes over names {a,b,zz} against 18 credentials: any returned presentation holds only genuine disclosures, once each, ancestor-closed.",
+   "same trusted base as C01", "4 C06"),
+ "C12": ("exploration", "E1 pipeline (issuance, decoys)", "exhaustive enumeration of claim trees x strategies x decoy flag x 3 issuances; every object of the decoded payload and disclosure values inspected; order clause decided on every _sd list (sortedness), statistical fallback only if a list is unsorted",
+   "Every object of the user claims (root, nested, in arrays, inside hidden values, empty) must carry >= 1 unmatched 32-byte digest when decoys are on and none when off; digests unique per credential and across the run; inert clause = C01+C06 oracles with decoys on over S(3,3)/S(4,3).",
+   "the order-leak fallback rule is the property's own statistical rule and is only reached if some _sd list is not sorted", "4 C12"),
+ "C13": ("fault_enumeration", "E1 (issuance, planted reserved names)", "exhaustive fault enumeration: reserved name planted at every object node of every tree x values x strategies x formats, with look-alike controls",
+   "For every tree of S(4,3) (thorough S(5,4)), every object node, name in {_sd, ...}, 7 values, first/last position, 5 strategies, 2 formats: issuance must return Err; the unplanted tree and 8 look-alike names must be issued.",
+   "refusal observed as Err from issue_sd_jwt", "4 C13"),
+})
 NOT_YET = {}
 def main():
     props=[json.loads(l) for l in open('/verif/properties.jsonl')]
